@@ -12,7 +12,8 @@ EXPLANATION = ("For each public function of acnsim/analysis: the declared return
                "which role (numerator/denominator, threshold direction) - are checked on the expanded return expression. "
                "constraint_currents must pair rows with the network's constraint names filtered by membership (network order, "
                "the order ChargingNetwork.constraint_current uses); NEMA = (max - mean)/mean over axis 0 of the stacked "
-               "currents of exactly the requested phases; datetimes_array has one entry per simulated period spaced by the period.")
+               "currents of exactly the requested phases; datetimes_array has one entry per simulated period spaced by the period."
+               ' Added in round 3: casts to timedelta64 / datetime64 / int of a dimensioned quantity truncate (units engine); results are judged on their def-use expanded comprehension (append loops, accumulation loops).')
 NOT_DECIDED = "numeric equality with an independent recomputation"
 
 MOD = "acnsim/analysis/__init__.py"
